@@ -26,7 +26,10 @@ RULE = ('fault enumeration: for k<=4 scripted providers every assignment of outc
         'random.random / random.shuffle forced to every permutation), min/max_providers and max_errors, '
         'cache disabled and cold; cache exploration: every history up to the stated length over '
         '{query this key, query another key, advance the clock past an expiry, reopen the service} x '
-        'provider health, from a fresh sqlite cache.  A state is a distinct (configuration, fault '
+        'provider health, from a fresh sqlite cache; request windows: one block of five transactions is '
+        'requested through every (parse_transactions, page, limit, id form) window that cuts it differently, '
+        'so the cache is filled through one window and read through another (page absent / partly / completely '
+        'cached).  A state is a distinct (configuration, fault '
         'assignment, cache state) combination, a transition is one Service call executed on the real '
         'code, every executed call is compared with the reference failover function / cache model; an '
         'evaluation is non-trivial when at least one provider method was invoked or a cached answer was served')
@@ -56,7 +59,13 @@ ASSUMPTIONS = [
     'every query of the addr/bal history families for the addresses Y and W: a falsy balance / None counts as '
     '"unknown", any other figure must be the provider chain\'s or a stored getbalance answer',
     'fake providers answer like the real clients do (getbalance([]) == 0, gettransactions/getutxos honour '
-    'after_txid and limit, isspent answers 1/0)',
+    'after_txid and limit, isspent answers 1/0, getblock answers the transactions number (page-1)*limit .. '
+    'page*limit-1 of the block in block order - txids when parse_transactions is false - and an empty list '
+    'beyond the end or for limit 0)',
+    'a block page served from the cache must be exactly that slice of the block, in block order (the docstring: '
+    '"with page=2, limit=4 only transaction 5 to 8 are returned"), every transaction equal to a copy that was '
+    'stored; copies stored from different providers may be mixed in one page; asking a provider although the '
+    'page is completely cached is not a deviation',
 ]
 
 NET = 'bitcoin'
@@ -227,6 +236,27 @@ def fx():
                    'script': codec.push(_sig(5)) + codec.push(pubs[12]), 'seq': 0xffffffff}],
            [{'value': 1699800000, 'script': spkX}], None,
            meta={'in': [{'addr': c.Y, 'value': 1699900000}], 'out': [c.X]})
+        # a block with five transactions (height 110) on addresses of its own, so that the histories of X/Y/W/Z
+        # stay as they are: coinbase K0 with four outputs, K1..K4 spend one of them each
+        pubs.update({n: secp.ser(secp.pub(n), True) for n in (21, 22)})
+        hV, hV2 = codec.hash160(pubs[21]), codec.hash160(pubs[22])
+        c.V, c.V2 = raddr.addr_p2pkh(net, hV), raddr.addr_p2pkh(net, hV2)
+        spkV, spkV2 = raddr.spk_p2pkh(hV), raddr.spk_p2pkh(hV2)
+        k0 = mk('K0', [{'txid': b'\x00' * 32, 'vout': 0xffffffff, 'script': b'\x03\x6e\x00\x00' + tag,
+                        'seq': 0xffffffff}],
+                [{'value': 1250000000, 'script': spkV}] * 4, BLOCK_H,
+                meta={'in': [{'addr': '', 'value': 0}], 'out': [c.V] * 4, 'coinbase': True})
+        for j in (1, 2, 3, 4):
+            vout = [{'value': 1249990000 - 1000 * j, 'script': spkV2}]
+            outa = [c.V2]
+            if j == 3:
+                vout = [{'value': 600000000, 'script': spkV2}, {'value': 649980000, 'script': spkV}]
+                outa = [c.V2, c.V]
+            mk('K%d' % j, [{'txid': bytes.fromhex(k0['txid'])[::-1], 'vout': j - 1,
+                            'script': codec.push(_sig(10 + j)) + codec.push(pubs[21]),
+                            'seq': 0xffffffff - (j % 2)}],
+               vout, BLOCK_H, locktime=0 if j != 4 else 105,
+               meta={'in': [{'addr': c.V, 'value': 1250000000}], 'out': outa})
         c.txs = txs
         c.by_id = {d['txid']: d for d in txs.values()}
         c.chain = ['TC', 'TA', 'TB', 'TD']          # confirmed, in block order
@@ -274,15 +304,54 @@ def chain_balance(c, address):
     return sum(u[2] for u in addr_utxos(c, address))
 
 
-def block_dict(c, height, pidx, parse_transactions, page, limit, net):
-    """What a provider answers for getblock: header fields of a made-up block holding one chain tx."""
-    name = {100: 'TC', 101: 'TA', 102: 'TB', 103: 'TD'}[height]
-    d = c.txs[name]
-    txs = [make_tx(net, name, pidx)] if parse_transactions else [d['txid']]
-    return {'bits': 0x1d00ffff, 'depth': 5, 'block_hash': codec.sha256(b'vfblock%d' % height).hex(),
+BLOCK_H = 110
+BLOCKS = {100: ['TC'], 101: ['TA'], 102: ['TB'], 103: ['TD'], BLOCK_H: ['K0', 'K1', 'K2', 'K3', 'K4']}
+
+
+def block_hash(height):
+    return codec.sha256(b'vfblock%d' % height).hex()
+
+
+def block_height(blockid):
+    """Height of the fixture block named by height or by hash."""
+    if isinstance(blockid, int) and not isinstance(blockid, bool):
+        return blockid
+    for h in BLOCKS:
+        if block_hash(h) == blockid:
+            return h
+    raise KeyError(blockid)
+
+
+def block_page(height, page, limit):
+    """Reference: names of the transactions number (page-1)*limit .. page*limit-1 of the block, in block order."""
+    return BLOCKS[height][(page - 1) * limit:page * limit]
+
+
+def block_request(args):
+    """(height, parse_transactions, page, effective limit) of a Service.getblock call, defaults as documented:
+    page 1, 25 transactions when they are parsed, all transaction ids otherwise."""
+    parse = args[1] if len(args) > 1 else True
+    page = args[2] if len(args) > 2 else 1
+    limit = args[3] if len(args) > 3 else None
+    if limit is None:
+        limit = 25 if parse else 99999
+    return block_height(args[0]), parse, page, limit
+
+
+def block_dict(c, blockid, pidx, parse_transactions, page, limit, net):
+    """What a provider answers for getblock: header fields of a made-up block holding chain transactions, and
+    the requested page of its transactions (empty beyond the end)."""
+    height = block_height(blockid)
+    names = BLOCKS[height]
+    d = c.txs[names[0]]
+    page_names = block_page(height, page, limit)
+    txs = [make_tx(net, n, pidx) for n in page_names] if parse_transactions else \
+        [c.txs[n]['txid'] for n in page_names]
+    return {'bits': 0x1d00ffff, 'depth': 5, 'block_hash': block_hash(height),
             'height': height, 'merkle_root': bytes.fromhex(d['txid'])[::-1].hex(), 'nonce': 7000 + pidx,
-            'prev_block': codec.sha256(b'vfblock%d' % (height - 1)).hex(), 'time': 1600000000 + height,
-            'tx_count': 1, 'txs': txs, 'version': 1, 'page': page, 'pages': 1, 'limit': limit}
+            'prev_block': block_hash(height - 1), 'time': 1600000000 + height,
+            'tx_count': len(names), 'txs': txs, 'version': 1, 'page': page,
+            'pages': max(1, -(-len(names) // limit)) if limit else 1, 'limit': limit}
 
 
 def make_tx(net, name, pidx, spent_view=None):
@@ -801,11 +870,15 @@ def value_matches(method, net, pidx, cls, pargs, val, req_args):
             if got != ref_block_summary(exp):
                 return 'block_fields_differ'
             txs = getattr(val, 'transactions', None) or []
+            names = block_page(block_height(pargs[0]), pargs[2], pargs[3])
             if pargs[1]:
-                name = {100: 'TC', 101: 'TA', 102: 'TB', 103: 'TD'}[pargs[0]]
-                if len(txs) != 1 or not hasattr(txs[0], 'inputs') or \
-                        tx_diff(tx_summary(txs[0]), ref_tx_summary(net, name, pidx)):
-                    return 'block_transactions_differ'
+                if len(txs) != len(names):
+                    return 'block_page_length_differs'
+                for t, name in zip(txs, names):
+                    if not hasattr(t, 'inputs') or tx_diff(tx_summary(t), ref_tx_summary(net, name, pidx)):
+                        return 'block_transactions_differ'
+            elif list(txs) != [c.txs[x]['txid'] for x in names]:
+                return 'block_txids_differ'
             return None
         if method == 'isspent':
             return None if val is bool(exp) else 'differs'
@@ -1173,8 +1246,7 @@ def sub_multi(case):
 # ======================================================================================= sub: cache histories
 HEALTH = {'H': ['ok', 'ok', 'ok'], 'F': ['cerr', 'ok', 'ok'], 'D': ['cerr', 'cerr', 'cerr'],
           'M': ['mal', 'ok', 'ok'], 'E': ['exc', 'false', 'ok']}
-TXKEY = {'A': 'TA', 'B': 'TB', 'C': 'TC', 'D': 'TD', 'U': 'TU'}
-HEIGHT_TX = {100: 'TC', 101: 'TA', 102: 'TB', 103: 'TD'}
+TXKEY = {'A': 'TA', 'B': 'TB', 'C': 'TC', 'D': 'TD', 'U': 'TU', 'K': 'K1', 'L': 'K4'}
 
 
 def fee_bucket(blocks):
@@ -1280,22 +1352,51 @@ def judge_cached(method, net, key, args, val, model, clock):
             return 'dev', 'cache|fee_differs_from_stored'
         return ('dev', 'cache|serves_stored_network_default_fee') if st[2] else ('cache', None)
     if method == 'getblock':
-        cands = model.blocks.get(args[0])
+        height, parse, page, limit = block_request(args)
+        cands = model.blocks.get(height)
         if not cands:
             return 'dev', 'cache|serves_block_never_stored'
         if not hasattr(val, 'block_hash'):
             return 'dev', 'cache|not_a_block'
         got = block_summary(val)
-        hit = [p for p in cands if got == ref_block_summary(block_dict(c, args[0], p, False, 1, 25, net))]
+        hit = [p for p in cands if got == ref_block_summary(block_dict(c, height, p, False, 1, 25, net))]
         if not hit:
             return 'dev', 'cache|block_differs_from_stored'
-        name = HEIGHT_TX[args[0]]
-        txs = getattr(val, 'transactions', None) or []
-        okp = [x[1] for x in model.tx.get(c.txs[name]['txid'], ()) if x[0] == 'ok']
-        if len(txs) != 1 or not hasattr(txs[0], 'inputs') or _tx_match(net, tx_summary(txs[0]), name, okp) is None:
-            return 'dev', 'cache|block_transactions_differ_from_stored'
-        return 'cache', None
+        return judge_cached_block_page(net, c, height, parse, page, limit, val, model)
     return 'dev', 'cache|unexpected_cache_answer'
+
+
+def judge_cached_block_page(net, c, height, parse, page, limit, val, model):
+    """The transactions of a block served from the cache for (page, limit): exactly the transactions number
+    (page-1)*limit .. page*limit-1 of the block in block order (what every responding provider answers for that
+    page), each one equal to a copy that was stored.  Fewer than that is partial data."""
+    names = block_page(height, page, limit)
+    exp_ids = [c.txs[x]['txid'] for x in names]
+    all_ids = [c.txs[x]['txid'] for x in BLOCKS[height]]
+    txs = getattr(val, 'transactions', None) or []
+    if parse and not all(hasattr(t, 'inputs') for t in txs):
+        return 'dev', 'cache|block_page_not_a_list_of_transactions'
+    if not parse and not all(isinstance(t, str) for t in txs):
+        return 'dev', 'cache|block_page_not_a_list_of_txids'
+    ids = [t.txid for t in txs] if parse else list(txs)
+    if ids != exp_ids:
+        if len(set(ids)) < len(ids):
+            return 'dev', 'cache|block_page_duplicate_transactions'
+        if all(i in exp_ids for i in ids):
+            if ids == [i for i in exp_ids if i in ids]:
+                # (an empty list for a non-empty page is the same thing: nothing of the page, no error)
+                return 'dev', 'cache|block_page_incomplete_partial_data'
+            return 'dev', 'cache|block_page_order_differs_from_block'
+        if all(i in all_ids for i in ids):
+            return 'dev', 'cache|block_page_holds_transactions_of_another_page'
+        return 'dev', 'cache|block_transactions_differ_from_stored'
+    for t, name in zip(txs, names):
+        stored = [x[1] for x in model.tx.get(c.txs[name]['txid'], ()) if x[0] == 'ok']
+        if not stored:
+            return 'dev', 'cache|block_page_serves_transaction_never_stored'
+        if parse and _tx_match(net, tx_summary(t), name, stored) is None:
+            return 'dev', 'cache|block_transactions_differ_from_stored'
+    return 'cache', None
 
 
 def judge_blockcount(obs, outc, order, maxp, maxe, model, clock, health, fresh_instance):
@@ -1481,6 +1582,19 @@ def judge_address_records(srv, model, c, addresses):
     return None, None
 
 
+def block_event_args(key):
+    """Arguments of a getblock event.  key: '<id>' (all defaults) or '<id>:<T|F>:<page>:<limit|N>' with
+    id = height or 'h<height>' (the block hash is passed), T/F = parse_transactions, N = limit not passed."""
+    parts = key.split(':')
+    blockid = block_hash(int(parts[0][1:])) if parts[0][0] == 'h' else int(parts[0])
+    if len(parts) == 1:
+        return (blockid,)
+    parse = parts[1] == 'T'
+    if parts[3] == 'N':
+        return (blockid, parse, int(parts[2]))
+    return (blockid, parse, int(parts[2]), int(parts[3]))
+
+
 def jh(obj):
     import hashlib
     return hashlib.sha256(json.dumps(obj, sort_keys=True, default=str).encode()).hexdigest()[:16]
@@ -1495,7 +1609,7 @@ def hist_query(srv, model, net, c, method, key, health, outc, order, maxp, maxe,
     elif method == 'estimatefee':
         args = (int(key),)
     elif method == 'getblock':
-        args = (int(key),)
+        args = block_event_args(key)
     elif method == 'gettransactions':
         args = (getattr(c, key[0]), '', int(key[1:]))
     elif method == 'getutxos':
@@ -1527,6 +1641,13 @@ def hist_query(srv, model, net, c, method, key, health, outc, order, maxp, maxe,
                     dev = 'cache|failed_without_asking_providers'
             else:
                 label, dev = judge_cached(method, net, key, args, obs['ret'], model, E.clock)
+                if dev and method == 'getblock':
+                    height, parse, page, limit = block_request(args)
+                    txs = getattr(obs['ret'], 'transactions', None) or []
+                    ids = [getattr(t, 'txid', t) for t in txs]
+                    detail = {'request': {'height': height, 'parse_transactions': parse, 'page': page, 'limit': limit},
+                              'page_of_the_block': block_page(height, page, limit),
+                              'served_from_cache': [c.by_id[i]['name'] if i in c.by_id else str(i)[:64] for i in ids]}
         else:
             label, dev, detail = judge(method, net, 3, order, outc, maxp, maxe, args, pargs, obs)
             if dev and failed and health == 'D':
@@ -1542,9 +1663,12 @@ def hist_query(srv, model, net, c, method, key, health, outc, order, maxp, maxe,
                     other = 'TB' if name != 'TB' else 'TA'
                     model.tx.setdefault(args[0], set()).add(('mal', other, answerer))
             if method == 'getblock' and cls == 'ok':
-                model.blocks.setdefault(args[0], set()).add(answerer)
-                if minp <= 1:
-                    model.tx.setdefault(c.txs[HEIGHT_TX[args[0]]]['txid'], set()).add(('ok', answerer))
+                height, parse, page, limit = block_request(args)
+                model.blocks.setdefault(height, set()).add(answerer)
+                if minp <= 1 and parse:
+                    # every transaction of the answered page may now be cached
+                    for name in block_page(height, page, limit):
+                        model.tx.setdefault(c.txs[name]['txid'], set()).add(('ok', answerer))
             if method == 'estimatefee' and cls == 'ok':
                 model.fee[fee_bucket(args[0])] = (obs['ret'], E.clock + 600, False)
         if method == 'estimatefee' and recs and not failed and default_fee is not None and \
@@ -1669,7 +1793,7 @@ def selftest():
     for net in NETS:
         c = f.by_net[net]
         # the fixture chain is self-consistent: every input spends an existing output of the stated value
-        for name in c.chain + ['TU']:
+        for name in c.chain + ['TU'] + BLOCKS[BLOCK_H]:
             d = c.txs[name]
             assert rtx.txid(rtx.parse(bytes.fromhex(d['raw']))) == d['txid']
             if d['coinbase']:
@@ -1680,6 +1804,19 @@ def selftest():
                 assert prev['out'][i['vout']] == d['in'][k]['addr']
         assert addr_history(c, c.X) == ['TC', 'TA', 'TB', 'TD'] and addr_history(c, c.Y) == ['TA', 'TD']
         assert addr_utxos(c, c.X) == [] and [u[1] for u in addr_utxos(c, c.Y)] == [0, 0]
+        # the multi-transaction block does not touch the histories above, all its ids are distinct
+        assert len(set(c.txs[x]['txid'] for x in BLOCKS[BLOCK_H])) == 5
+        assert all(c.txs[x]['height'] == h for h, names in BLOCKS.items() for x in names)
+        assert not set(BLOCKS[BLOCK_H]) & set(c.chain)
+    # paging reference, hand-computed
+    assert block_page(BLOCK_H, 1, 4) == ['K0', 'K1', 'K2', 'K3'] and block_page(BLOCK_H, 2, 4) == ['K4']
+    assert block_page(BLOCK_H, 2, 3) == ['K3', 'K4'] and block_page(BLOCK_H, 3, 2) == ['K4']
+    assert block_page(BLOCK_H, 1, 25) == BLOCKS[BLOCK_H] and block_page(BLOCK_H, 2, 5) == []
+    assert block_page(BLOCK_H, 1, 0) == [] and block_page(101, 1, 25) == ['TA']
+    assert block_request((101,)) == (101, True, 1, 25) and block_request((BLOCK_H, False)) == (BLOCK_H, False, 1, 99999)
+    assert block_request((block_hash(BLOCK_H), True, 2, 3)) == (BLOCK_H, True, 2, 3)
+    assert block_event_args('101') == (101,) and block_event_args('110:T:2:3') == (110, True, 2, 3)
+    assert block_event_args('110:F:1:N') == (110, False, 1) and block_event_args('h110:T:1:N')[0] == block_hash(110)
     assert len(prio_vectors(3)) == 13 and len(prio_vectors(4)) == 75
     assert len(assignments(4, MAIN)) == 6 ** 4 and assignments(3, MAIN)[0] == ['ok'] * 3
 
@@ -1732,6 +1869,24 @@ FAMILIES['bal'] = [Q('gettransactions', 'Y20', 'H'), Q('getutxos', 'Y1', 'H'), Q
                    Q('gettransactions', 'Y20', 'F'), Q('getbalance', 'Y', 'D'), Q('gettransactions', 'Y1', 'H'),
                    ['R', 'H'], ['T', 61]]
 REDUCED['bal'] = FAMILIES['bal'][:4]
+
+
+# one block with five transactions, requested through every window (parse_transactions, page, limit) that cuts it
+# differently: the cache is filled through one window and read through another, so the requested page can be
+# absent, partly or completely in the cache; last pages, the exactly filled page, the default window, the txid
+# list, limit 0, a page beyond the end, the block named by hash
+def _bw(window, blockid='110'):
+    return '%s:%s' % (blockid, window)
+
+
+PAGE_WINDOWS = ['T:1:N', 'T:1:2', 'T:2:2', 'T:3:2', 'T:1:3', 'T:2:3', 'T:1:4', 'T:2:4', 'T:1:5', 'F:1:N',
+                'F:2:2', 'T:1:0', 'T:2:5']
+FAMILIES['page'] = ([Q('getblock', _bw(w), 'H') for w in PAGE_WINDOWS] +
+                    [Q('getblock', _bw('T:1:N', 'h110'), 'H')] +
+                    [Q('getblock', _bw(w), 'F') for w in ('T:1:N', 'T:2:3', 'T:1:4', 'F:1:N')] +
+                    [Q('getblock', _bw(w), 'D') for w in ('T:1:N', 'T:2:3', 'T:1:4', 'T:2:4')] +
+                    [Q('gettransaction', 'K', 'H'), Q('gettransaction', 'L', 'D'), ['R', 'H']])
+REDUCED['page'] = [Q('getblock', _bw(w), 'H') for w in ('T:1:2', 'T:2:2', 'T:3:2', 'T:1:4', 'T:1:N', 'F:1:N')]
 
 
 def histories(alphabet, length):
@@ -1927,9 +2082,15 @@ def run(ctx):
             plan = [(NET, {}, 2 if q else 3), (NET, {'max_errors': 4}, 4 if q else 5)]
             if not q:
                 plan.append((NET, {'max_errors': 3}, 3))
+        if fam == 'page':
+            plan = [(NET, {}, 2), (NET, {'max_errors': 4}, 3 if q else 4)]
+            if not q:
+                plan += [(NET, {'max_errors': 2}, 3), (NET, {'min_providers': 2}, 2), ('testnet', {'max_errors': 4}, 2)]
         for net, cfg, ln in plan:
             red = cfg == {'max_errors': 4} or (q and net != NET)
             alpha = REDUCED[fam] if red else alphabet
+            if fam == 'page' and ln >= 3 and not red:
+                alpha = alphabet[:18]       # the 14 healthy windows and the 4 with the first provider down
             if fam == 'addr' and (q or ln >= 3):
                 alpha = REDUCED['addr_quick'] if red else alphabet[:12]
             hs = histories(alpha, ln)
